@@ -31,6 +31,7 @@ def run(ctx, rep):
     r2_r3(prog, ev, rep, sites)
     r4(prog, ev, rep)
     r5(prog, ev, rep)
+    shared_rules(ctx, prog, ev, rep)
 
 
 def collect_sites(prog, ev):
@@ -179,6 +180,46 @@ def r2_r3(prog, ev, rep, sites):
                 rep.ok("C03-R3", key, where, "step = looked-up name")
         else:
             rep.unrecognised("C03-R2", "%s|key?" % p, where, "Pointer::key fed by `%s`" % v)
+
+
+def name_step_is_verbatim(prog, ev):
+    """Does Pointer::key write the member name into the path exactly as it got it?  True / False / None (unrecognised)"""
+    try:
+        kp = prog.inherent_method("crate::query::state::Pointer", "key")
+    except Exception:
+        return None
+    t = ev.summary(kp)
+    f = dict(t.a[2]) if t.k == "adt" else {}
+    pt = f.get("path")
+    if pt is None:
+        # early returns / joins: look at every Pointer construction in the summary
+        pts = [dict(x.a[2]).get("path") for x in subterms(t) if x.k == "adt" and x.a[1] == "Pointer"]
+        pts = [p for p in pts if p is not None]
+        if not pts:
+            return None
+    else:
+        pts = [pt]
+    keyp = Tm("param", (2, "key"))
+    verdicts = []
+    for pt in pts:
+        for fm in [x for x in subterms(pt) if x.k == "call" and x.a[0] == "<format>"]:
+            pieces = fm.a[1].a[1]
+            if pieces == (("arg", 0, False), ("lit", "['"), ("arg", 1, False), ("lit", "']")):
+                a = _fmtarg(fm.a[3])
+                verdicts.append(a == keyp)
+    if not verdicts:
+        return None
+    return all(verdicts)
+
+
+def shared_rules(ctx, prog, ev, rep):
+    from vflib.report import Shared
+    from rules import c01, c09
+    # the name a selector looks up and the name written into the path must be the same text: a two-pass rewrite of the key
+    # makes them differ (the lookup finds member `/`, the path names member `\/`)
+    c01.r6(ctx, prog, ev, Shared(rep, {"C01-R6": "C03-R6"}, lender="C01"))
+    # a reported path can be queried again: every Normalized Path is accepted by the library's own parser
+    c09.r6(ctx, Shared(rep, {"C09-R6": "C03-R7"}, lender="C09"))
 
 
 def r4(prog, ev, rep):
